@@ -1,1 +1,279 @@
-pub fn run(_args: &vh_common::Args, _report: &mut vh_common::Report) {}
+//! C24, in-process part: the real `ServerContext::task` / `cancel` wrapper and the real dispatch macro with
+//! *forced* handler outcomes (finishes at once / still running when later messages arrive; panics or not),
+//! which the stdio sessions cannot control. Each session is a list of operations in the `running` phase:
+//!   task(id, slow, panics)  → `ctx.task(id, exec)` (stands for a registered method with well-formed params)
+//!   request(id, method, params ok|bad) → `on_request_handler` (real handlers; bad params; unknown methods)
+//!   cancel(target) / other notifications → `on_notification_handler`
+//! At the end every slow handler is released. Oracle: exactly one response per id. Tie: the multiset
+//! (id, kind) equals the Proto model's (`proto.run`) on the same abstract session.
+use crate::session::{Reply, Session, take_panics};
+use emmylua_ls::verif_handlers::lsp_server::{RequestId, Response};
+use lsp_types::ClientCapabilities;
+use serde_json::{Value, json};
+use std::collections::BTreeMap;
+use std::time::Duration;
+use vh_common::{Args, Report, Rng, hex, run_driver};
+
+#[derive(Clone, Debug)]
+enum Op {
+    Task { id: i32, slow: bool, panics: bool },
+    Request { id: i32, method: String, ok: bool },
+    Cancel { target: i32, ok: bool },
+    Notif { method: String },
+}
+
+fn op_json(o: &Op) -> Value {
+    match o {
+        Op::Task { id, slow, panics } => json!({"op": "task", "id": id, "slow": slow, "panics": panics}),
+        Op::Request { id, method, ok } => json!({"op": "request", "id": id, "method": method, "ok": ok}),
+        Op::Cancel { target, ok } => json!({"op": "cancel", "target": target, "ok": ok}),
+        Op::Notif { method } => json!({"op": "notif", "method": method}),
+    }
+}
+
+fn op_from(v: &Value) -> Option<Op> {
+    Some(match v["op"].as_str()? {
+        "task" => Op::Task { id: v["id"].as_i64()? as i32, slow: v["slow"].as_bool()?, panics: v["panics"].as_bool()? },
+        "request" => Op::Request { id: v["id"].as_i64()? as i32, method: v["method"].as_str()?.to_string(), ok: v["ok"].as_bool()? },
+        "cancel" => Op::Cancel { target: v["target"].as_i64()? as i32, ok: v["ok"].as_bool()? },
+        _ => Op::Notif { method: v["method"].as_str()?.to_string() },
+    })
+}
+
+const REAL_METHODS: &[&str] = &["textDocument/hover", "textDocument/documentSymbol", "textDocument/foldingRange", "textDocument/semanticTokens/full", "textDocument/completion"];
+const UNKNOWN: &[&str] = &["foo/bar", "initialize", "textDocument/hoverX", "shutdownX"];
+
+fn gen_session(rng: &mut Rng) -> Vec<Op> {
+    let n = rng.range(4, 24);
+    let mut ops = vec![];
+    let mut next = 2;
+    let mut ids = vec![];
+    for _ in 0..n {
+        match rng.below(10) {
+            0..=3 => {
+                ops.push(Op::Task { id: next, slow: rng.chance(1, 2), panics: rng.chance(1, 3) });
+                ids.push(next);
+                next += 1;
+            }
+            4 | 5 => {
+                let unknown = rng.chance(1, 3);
+                let method = if unknown { *rng.pick(UNKNOWN) } else { *rng.pick(REAL_METHODS) };
+                ops.push(Op::Request { id: next, method: method.to_string(), ok: rng.chance(1, 2) });
+                ids.push(next);
+                next += 1;
+            }
+            6..=8 => {
+                let target = if !ids.is_empty() && rng.chance(4, 5) { *rng.pick(&ids) } else { next + 10 };
+                ops.push(Op::Cancel { target, ok: rng.chance(5, 6) });
+            }
+            _ => ops.push(Op::Notif { method: (*rng.pick(&["foo/note", "$/setTrace", "textDocument/didSave"])).to_string() }),
+        }
+    }
+    ops
+}
+
+fn model_line(ops: &[Op]) -> String {
+    let mut toks = vec![
+        format!("r:1:{}:o:fn", hex("initialize")),
+        format!("n:{}:o:0", hex("initialized")),
+        "i".to_string(),
+    ];
+    for o in ops {
+        toks.push(match o {
+            Op::Task { id, slow, panics } => format!(
+                "r:{}:{}:o:{}{}",
+                id,
+                hex("textDocument/hover"),
+                if *slow { "s" } else { "f" },
+                if *panics { "p" } else { "n" }
+            ),
+            Op::Request { id, method, ok } => format!("r:{}:{}:{}:fn", id, hex(method), if *ok { "o" } else { "b" }),
+            Op::Cancel { target, ok } => format!("n:{}:{}:{}", hex("$/cancelRequest"), if *ok { "o" } else { "b" }, target),
+            Op::Notif { method } => format!("n:{}:o:0", hex(method)),
+        });
+    }
+    format!("proto.run {}", toks.join(","))
+}
+
+fn run_session(s: &mut Session, ops: &[Op]) -> Vec<(String, String)> {
+    let uri = s.uri_str.clone();
+    let mut releases: Vec<tokio::sync::oneshot::Sender<()>> = vec![];
+    let mut got: Vec<(String, String)> = vec![];
+    for o in ops {
+        match o {
+            Op::Task { id, slow, panics } => {
+                let (tx, rx) = tokio::sync::oneshot::channel::<()>();
+                let (slow, panics, idv) = (*slow, *panics, *id);
+                if slow {
+                    releases.push(tx);
+                } else {
+                    drop(tx);
+                }
+                let ctx = &s.ctx;
+                s.rt.block_on(async {
+                    ctx.task(RequestId::from(idv), move |_token| async move {
+                        if slow {
+                            let _ = rx.await;
+                        }
+                        if panics {
+                            panic!("forced handler panic (C24 in-process case)");
+                        }
+                        Some(Response::new_ok(RequestId::from(idv), Value::Null))
+                    })
+                    .await;
+                });
+                if !slow {
+                    // a fast handler is over before the next message is processed
+                    wait_for(s, &idv.to_string(), &mut got);
+                }
+            }
+            Op::Request { id, method, ok } => {
+                let params = if *ok {
+                    match method.as_str() {
+                        "textDocument/hover" | "textDocument/completion" => json!({"textDocument": {"uri": uri}, "position": {"line": 0, "character": 7}}),
+                        _ => json!({"textDocument": {"uri": uri}}),
+                    }
+                } else {
+                    json!("bad")
+                };
+                s.post(*id, method, params);
+                wait_for(s, &id.to_string(), &mut got);
+            }
+            Op::Cancel { target, ok } => {
+                let params = if *ok { json!({"id": target}) } else { json!({"id": {"x": 1}}) };
+                s.notify("$/cancelRequest", params);
+            }
+            Op::Notif { method } => {
+                let params = match method.as_str() {
+                    "$/setTrace" => json!({"value": "off"}),
+                    "textDocument/didSave" => json!({"textDocument": {"uri": uri}}),
+                    _ => json!({}),
+                };
+                s.notify(method, params);
+            }
+        }
+    }
+    for tx in releases {
+        let _ = tx.send(());
+    }
+    for o in ops {
+        if let Op::Task { id, .. } | Op::Request { id, .. } = o {
+            wait_for(s, &id.to_string(), &mut got);
+        }
+    }
+    // a short settle time so that a duplicate response would be seen
+    for (id, r) in s.drain(Duration::from_millis(60), Duration::from_secs(5)) {
+        got.push((id, r.kind().to_string()));
+    }
+    let _ = take_panics();
+    got
+}
+
+fn wait_for(s: &mut Session, id: &str, got: &mut Vec<(String, String)>) {
+    use emmylua_ls::verif_handlers::lsp_server::Message;
+    let end = std::time::Instant::now() + Duration::from_secs(20);
+    while !got.iter().any(|(i, _)| i == id) && std::time::Instant::now() < end {
+        if let Ok(Message::Response(r)) = s.client.receiver.recv_timeout(Duration::from_secs(1)) {
+            let reply = match (r.result, r.error) {
+                (_, Some(e)) => Reply::Error(e.code as i64, e.message),
+                (Some(v), None) => Reply::Result(v),
+                (None, None) => Reply::Result(Value::Null),
+            };
+            got.push((r.id.to_string(), reply.kind().to_string()));
+        }
+    }
+}
+
+pub fn run(args: &Args, report: &mut Report) {
+    let mut rng = Rng::new(args.seed ^ 0xC24);
+    let mut s = Session::new(ClientCapabilities::default(), false);
+    s.set_text("local abc = 1\nprint(abc)\n");
+    let mut sessions: Vec<Vec<Op>> = vec![];
+    if let Some(path) = &args.replay {
+        let r: Value = serde_json::from_str(&std::fs::read_to_string(path).expect("replay")).expect("json");
+        if let Some(a) = r["input"]["inproc"].as_array() {
+            sessions.push(a.iter().filter_map(op_from).collect());
+        } else {
+            report.write(&args.out);
+            std::process::exit(0);
+        }
+    } else {
+        // the four outcomes × cancel before / during / after, explicitly
+        for slow in [false, true] {
+            for panics in [false, true] {
+                sessions.push(vec![Op::Task { id: 2, slow, panics }]);
+                sessions.push(vec![Op::Task { id: 2, slow, panics }, Op::Cancel { target: 2, ok: true }]);
+                sessions.push(vec![Op::Cancel { target: 2, ok: true }, Op::Task { id: 2, slow, panics }]);
+                sessions.push(vec![Op::Task { id: 2, slow, panics }, Op::Cancel { target: 2, ok: false }]);
+            }
+        }
+        let n = if args.thorough() { 1500 } else { 120 };
+        for _ in 0..n {
+            sessions.push(gen_session(&mut rng));
+        }
+    }
+    let lines: Vec<String> = sessions.iter().map(|o| model_line(o)).collect();
+    let answers = run_driver(&lines);
+    let mut distinct = std::collections::HashSet::new();
+    for (ops, ans) in sessions.iter().zip(answers.iter()) {
+        let got = run_session(&mut s, ops);
+        let input = json!({"inproc": ops.iter().map(op_json).collect::<Vec<_>>()});
+        let mut per: BTreeMap<String, Vec<String>> = BTreeMap::new();
+        for (i, k) in &got {
+            per.entry(i.clone()).or_default().push(k.clone());
+            report.count(&format!("resp_{k}"));
+        }
+        let mut sent = vec![];
+        for o in ops {
+            match o {
+                Op::Task { id, slow, panics } => {
+                    sent.push(*id);
+                    report.count(&format!("task_slow{}_panics{}", *slow as u8, *panics as u8));
+                    distinct.insert(format!("task{slow}{panics}"));
+                }
+                Op::Request { id, method, ok } => {
+                    sent.push(*id);
+                    distinct.insert(format!("{method}{ok}"));
+                }
+                Op::Cancel { .. } => report.count("cancel"),
+                Op::Notif { .. } => report.count("notif"),
+            }
+        }
+        report.evaluations += sent.len() as u64;
+        // oracle: exactly one response per request id, none for other ids
+        let mut bad = None;
+        for id in &sent {
+            let n = per.get(&id.to_string()).map(|v| v.len()).unwrap_or(0);
+            if n != 1 {
+                bad = Some(format!("in-process: request id {id} received {n} responses {:?}; expected exactly one", per.get(&id.to_string())));
+                break;
+            }
+        }
+        if bad.is_none() {
+            if let Some(x) = per.keys().find(|k| !sent.iter().any(|i| &i.to_string() == *k)) {
+                bad = Some(format!("in-process: response for id {x} that was never sent"));
+            }
+        }
+        if let Some(what) = bad {
+            report.oracle_failure(json!({"what": what, "input": input, "class": Value::Null}));
+        }
+        // tie
+        let mut obs: Vec<(i64, String)> = got.iter().filter_map(|(i, k)| i.parse::<i64>().ok().map(|n| (n, k.clone()))).collect();
+        obs.push((1, "result".into())); // the handshake's initialize, present in the model's session
+        obs.sort();
+        let obs_s = obs.iter().map(|(i, k)| format!("{i}:{k}")).collect::<Vec<_>>().join(",");
+        let model_out = ans.split(' ').find(|p| p.starts_with("out=")).map(|p| p[4..].to_string()).unwrap_or_default();
+        if model_out == obs_s && ans.starts_with("ok phase=running") {
+            report.traces_validated += 1;
+        } else {
+            report.mismatch(json!({"what": "in-process task wrapper / dispatch: response multiset differs from the Proto model",
+                "input": input, "impl": obs_s, "model": ans}));
+        }
+        if report.samples.len() < 2 && ops.len() > 3 {
+            report.sample(json!({"inproc_ops": ops.iter().map(op_json).collect::<Vec<_>>(), "observed": obs_s}));
+        }
+    }
+    report.distinct_nontrivial = distinct.len() as u64;
+    report.rule = "in-process: evaluations = requests/tasks issued; distinct = (forced outcome | method × params ok/bad) classes".into();
+    let _ = Reply::Timeout;
+}
